@@ -520,6 +520,12 @@ func fileSetVBuf(L *LState) int {
 		return n
 	}
 	errorIfFileIsClosed(L, file)
+	// the buffer that is being replaced may hold output
+	if bwriter, ok := file.writer.(*bufio.Writer); ok {
+		if err = bwriter.Flush(); err != nil {
+			goto errreturn
+		}
+	}
 	switch filebufOptions[L.CheckOption(2, filebufOptions)] {
 	case "no":
 		switch file.Type() {
